@@ -125,6 +125,9 @@ func ruleInput(r *core.RNG, c compiledRule) (p, w, kind string) {
 	}
 	var b strings.Builder
 	k := r.Intn(20)
+	if !strings.HasSuffix(c.src.Pattern, "$") && r.Chance(40) {
+		k = 16 // a pattern that is not anchored at the end can match more than once: exercise ReplaceAllString's loop
+	}
 	instance(r, c.tree, &b, k < 8)
 	w = b.String()
 	kind = "rule-match"
